@@ -112,6 +112,9 @@ func unmarshalStringNode(m *Mast, nodeBytes []byte, l string, node *mastNode) er
 	if len(stringNode.Key) != len(stringNode.Value) {
 		return fmt.Errorf("cannot unmarshal %s: mismatched keys and values", l)
 	}
+	if len(stringNode.Link) != 0 && len(stringNode.Link) != len(stringNode.Key)+1 {
+		return fmt.Errorf("cannot unmarshal %s: mismatched keys and links", l)
+	}
 	*node = mastNode{
 		Node{
 			make([]interface{}, len(stringNode.Key)),
